@@ -1,4 +1,5 @@
 import RsslVerif.Model.GenMsl
+import RsslVerif.Spec.SemMslWT
 import RsslVerif.Driver.C01
 /-!
 Line-protocol front end of the semantic half of the C02 model.
@@ -12,7 +13,7 @@ harness uses.
 namespace RsslVerif.Driver.C02Sem
 open RsslVerif.Gen.HlslGenTables RsslVerif.Model RsslVerif.Model.GenMsl RsslVerif.Spec.Sem RsslVerif.Driver
 open RsslVerif.Model.Ir (Ty Var Const Dir)
-open RsslVerif.Driver.C01 (Sx parseAll parseFunc? parseVectors tyOf? parseVal? showStmts showOutcome concretePrim FUEL DEPTH)
+open RsslVerif.Driver.C01 (Sx parseAll parseFunc? parseVectors tyOf? parseVal? showStmts showOutcome showVal concretePrim FUEL DEPTH stmtsVars)
 
 structure Info where
   base : C01.Info
@@ -65,6 +66,64 @@ def panicCategory (site : String) : String :=
   else if (site.splitOn "unwrap").length > 1 then "unwrap"
   else "other"
 
+/-! ### running the model's own Metal tree under `Spec.SemMsl` (the reading the theorems are about) -/
+
+/-- frame slots: a function's locals and by-value parameters at the IR's variable ids, the trampoline's `__p` at the
+parameter's id, its `out` at a slot of its own; file-scope constants at their global ids -/
+def outSlot (f : Nat) : Var := .loc (1000000 + f)
+
+def Info.layout (inf : Info) (prog : List Ir.Func) : Msl.Layout :=
+  let cx := inf.ctx prog
+  { frame := fun fname s =>
+      match prog.find? (fun fn => cx.funcName fn.id == fname) with
+      | none => none
+      | some fn =>
+        let locals := fn.params.map (·.1) ++ stmtsVars fn.body
+        match (inf.base.vars.filter fun v => locals.contains v.1).find? (·.2.1 == s) with
+        | some v => some (.loc v.1)
+        | none =>
+          match fn.params.find? (fun p => trampLocal cx p.1 == s) with
+          | some p => some (.loc p.1)
+          | none =>
+            if s == Gen.MslGenTables.trampolineResultName then some (outSlot fn.id)
+            else
+              -- constants at file scope; statics threaded as parameters are *not* in the frame
+              match inf.base.globs.find? (fun g => g.2.1 == s && !inf.isParamMode g.1) with
+              | some g => some (.glob g.1)
+              | none => none
+    vty := fun x =>
+      match x with
+      | .loc n =>
+        if n ≥ 2000000 then
+          -- the caller's variables of the function under test: typed like the parameter they are passed to
+          ((prog.find? (fun fn => fn.id == inf.base.target)).bind fun fn => (fn.params[n - 2000000]?).map (·.2.2)).getD .void
+        else if n ≥ 1000000 then ((prog.find? (fun fn => fn.id == n - 1000000)).map (·.ret)).getD .void
+        else cx.vty x
+      | _ => cx.vty x
+    fres := fun s => (inf.base.funcs.find? (·.2 == s)).map (·.1)
+    scratch := fun fname =>
+      match prog.find? (fun fn => cx.funcName fn.id == fname) with
+      | some fn => if needsTrampoline cx fn then [outSlot fn.id] else []
+      | none => [] }
+
+/-- call the emitted function the way code outside the module would: values for `in` parameters, fresh variables of the
+caller (holding the argument values) for out/inout parameters, the statics by reference -/
+def runMsl (inf : Info) (prog : List Ir.Func) (mprog : List MslAst.Func) (fn : Ir.Func) (gs : List Nat)
+    (vals : List Val) (σ0 : Store) : String :=
+  let L := inf.layout prog
+  let idx := List.range fn.params.length
+  let margs : List Msl.MArg := (List.zip idx (List.zip fn.params vals)).map fun (i, p, v) =>
+    if p.2.1 = .in_ then .val v else .ref (.loc (2000000 + i))
+  let σ1 : Store := (List.zip idx (List.zip fn.params vals)).foldl
+    (fun σ (i, p, v) => if p.2.1 = .in_ then σ else σ.set (.loc (2000000 + i)) v) σ0
+  match Msl.phi concretePrim L mprog FUEL DEPTH fn.id false (margs ++ gs.map (fun g => Msl.MArg.ref (.glob g))) σ1 with
+  | none => "none"
+  | some (ret, σ2) =>
+    let finals := (List.zip idx fn.params).filterMap fun (i, p) =>
+      if p.2.1 = .in_ then none else some (showVal (σ2 (.loc (2000000 + i))))
+    "r=" ++ showVal ret ++ " o=" ++ ",".intercalate finals ++
+    " g=" ++ ",".intercalate (inf.base.globs.map fun g => showVal (σ2 (.glob g.1)))
+
 def handleGen (vectors ctx ir : String) : String :=
   let items := parseAll ir
   if items.any (Sx.hasHead "unsupported") || items.any (Sx.hasHead "intr") || (ctx.splitOn "unsupported").length > 1 then "unsupported" else
@@ -86,8 +145,12 @@ def handleGen (vectors ctx ir : String) : String :=
           let σ0 : Store := fun x => match x with
             | .glob n => ((inf.base.globs.find? (·.1 == n)).map (·.2.2.2)).getD .void
             | .loc _ => .void
+          let mprog : List MslAst.Func := gens.flatMap fun g => match g.2 with | .ok ds => ds | .error _ => []
+          let gs := (cx.req fn.id).getD []
           let outs := vecs.map fun v => showOutcome inf.base (Ir.phi concretePrim prog FUEL DEPTH fn.id v σ0)
-          "ast " ++ " ".intercalate (defs.map showFunc) ++ " ;; run " ++ " | ".intercalate outs
+          let mouts := vecs.map fun v => runMsl inf prog mprog fn gs v σ0
+          "ast " ++ " ".intercalate (defs.map showFunc) ++ " ;; run " ++ " | ".intercalate outs ++
+            " ;; msl " ++ " | ".intercalate mouts
         | _ => "bad-request: gen"
   | _, _, _ => "bad-request"
 
